@@ -358,7 +358,7 @@ def runBlocking (line : String) : String :=
       let rxn := match rx with | .live => "live" | .stalled => "stalled" | .gone => "gone" | .late => "late" | .refill => "refill" | .hangup => "hangup"
       let sig := s!"{pathName path},{op},rx={rxn}"
       if (api = .async ∧ ctx ≠ .tokioCurrentThread) ∨ (rx = .hangup ∧ (api ≠ .async ∨ op ≠ "flush")) then "bad-op"
-      else if rx = .refill ∧ (op ≠ "send" ∨ prefill < cap ∨ api = .async) then "bad-op"
+      else if rx = .refill ∧ (op ≠ "send" ∨ prefill < cap ∨ api = .async ∨ timeout < 200 ∨ timeout > 5000) then "bad-op"
       else if pathPanics path ctx then s!"panic\t{sig}"
       else if rx = .refill then
         -- remaining-time accounting (C08.send_or_wait_within_budget): the last clock reading is within 1.4·T
